@@ -16,8 +16,10 @@ VARIABLES nodes,        \* correct node -> [ns, cache]
           bz,           \* Byzantine deliveries used
           approved,     \* blocks some correct consumer validated (C04)
           decided,      \* correct node -> committed block or "-"
-          signed        \* correct node -> set of <<kind, view, hash>> it has signed (C10)
-mcvars == <<hdr, nodes, net, bz, approved, decided, signed>>
+          signed,       \* correct node -> set of <<kind, view, hash>> it has signed (C10)
+          ev            \* history: the event just taken (hidden from the exhaustive search by the VIEW)
+mcvars == <<hdr, nodes, net, bz, approved, decided, signed, ev>>
+View == <<nodes, net, bz, approved, decided, signed>>
 
 H == 1
 N == NCom(H)
@@ -75,6 +77,7 @@ Init == /\ hdr = Hdr
         /\ nodes = [n \in ToSet(Hdr.nodes) |-> InitFull]
         /\ net = {} /\ bz = 0 /\ approved = {} /\ decided = [n \in ToSet(Hdr.nodes) |-> "-"]
         /\ signed = [n \in ToSet(Hdr.nodes) |-> {}]
+        /\ ev = [t |-> "init"]
 
 Apply(n, fr) ==
   LET msgs == {ToMsg(fr.out[i], n) : i \in DOMAIN fr.out} IN
@@ -86,13 +89,16 @@ Apply(n, fr) ==
 
 Active(n) == decided[n] = "-"
 Start(n) == /\ nodes[n].ns.h = 0 /\ Apply(n, DoSync(nodes[n], n, 0, Propose(n, 0))) /\ UNCHANGED <<hdr, bz>>
+            /\ ev' = [t |-> "start", n |-> n, post |-> nodes'[n].ns]
 Recv(n, m) == /\ Active(n) /\ nodes[n].ns.h = H
               /\ (m.k = "VC" => n \in m.to)
               /\ LET fr == Deliver(nodes[n], n, m, Propose(n, IF m.k = "VC" THEN m.v ELSE 0)) IN
                  /\ (fr.ns # nodes[n].ns \/ fr.out # <<>>)          \* deliveries without any effect are stuttering
                  /\ Apply(n, fr)
+                 /\ ev' = [t |-> "recv", n |-> n, m |-> m, post |-> fr.ns]
 Time(n) == /\ Active(n) /\ nodes[n].ns.h = H /\ nodes[n].ns.view < MaxView
            /\ Apply(n, DoTimeout(nodes[n], n, Propose(n, nodes[n].ns.view + 1))) /\ UNCHANGED <<hdr, bz>>
+           /\ ev' = [t |-> "time", n |-> n, post |-> nodes'[n].ns]
 Next == \E n \in Honest :
           \/ Start(n) \/ Time(n)
           \/ (\E m \in net : m.s # n /\ Recv(n, m) /\ UNCHANGED <<hdr, bz>>)
@@ -109,4 +115,10 @@ HigherViewOnlyByCertificate ==
   \A n \in Honest : \A p \in nodes[n].ns.pp : (p.v > 0 /\ p.s # n) =>
      \E m \in net \cup ByzMsgs : m.k = "NV" /\ m.v = p.v /\ m.pp.x = p.x /\ ValidNewView(m, n, H)
 TypeOK == bz \in 0..ByzBudget
+\* reachability goals: TLC's counterexample to "never" is a shortest witness behaviour, replayed into the real code
+NeverCommitInHigherView == \A n \in Honest : ~(decided[n] # "-" /\ nodes[n].ns.view > 0 /\ nodes[n].ns.h = 1 /\ nodes[n].ns.committed)
+NeverLockedNewView == ~\E m \in net : m.k = "NV" /\ \E i \in DOMAIN m.votes : m.votes[i].proof.has
+NeverTwoProposalsStored == \A n \in Honest : Cardinality(nodes[n].ns.pp) < 2
+NeverByzantineBlockCommitted == \A n \in Honest : decided[n] \notin Blocks
+NeverElectedWithByzantineVote == ~\E m \in net : m.k = "NV" /\ \E i \in DOMAIN m.votes : m.votes[i].s = B
 =============================================================================
